@@ -136,7 +136,7 @@ class C15(Check):
     quick_examples = 1500
     thorough_examples = 15000
     rule = (
-        "[drawn in addition since rounds 13-15: functions and explicit names starting with an underscore; a view whose constructor raises KeyError (reachable = anything but -32601)] "
+        "[round 16: attach steps through the dispatcher.registry property] [drawn in addition since rounds 13-15: functions and explicit names starting with an underscore; a view whose constructor raises KeyError (reachable = anything but -32601)] "
         "cases: registration histories of up to 6 operations over a pool of 1..4 registries with prefix in {none, 'a', 'a.b'}: add(f), "
         "add(f, name) (names incl. dotted ones and names colliding with other registrations), add_methods(f, g), one decorator object obtained from add() applied to two functions, view(V), view(V, prefix), "
         "merge(r_i into r_j) (i != j, chains up to 3 levels; merged content is a snapshot), then attachment to a sync or async dispatcher via "
